@@ -123,6 +123,8 @@ type Case struct {
 	ChildSleepMs int `json:"childSleepMs,omitempty"`
 	// ChildDetached: the descendant holding the pipes has left the plugin's session and process group
 	ChildDetached bool `json:"childDetached,omitempty"`
+	// LingerMs: the plugin writes its complete output at once and then stays alive that long
+	LingerMs int `json:"lingerMs,omitempty"`
 
 	want any // the generated response struct (nil after a replay: then decoded from Reply)
 }
@@ -426,7 +428,7 @@ func genProduct(rt *rapid.T) *Case {
 	case 4, 5:
 		c.Exit = 1
 	case 6:
-		c.Exit = 2
+		c.Exit = rp.Pick(rt, "exitCode", 2, 2, 64, 125, 126, 127, 137, 200, 255)
 	case 7:
 		c.Kill = true
 		c.Exit = rapid.IntRange(0, 1).Draw(rt, "exitIfNotKilled")
@@ -522,7 +524,7 @@ func prepare(c *Case) (*sandbox, error) {
 	}
 	b := map[string]any{"exit": c.Exit, "kill": c.Kill, "stdout": c.Stdout, "stderr": c.Stderr, "marker": sb.marker,
 		"padStdout": c.PadStdout, "padStderr": c.PadStderr, "padStdoutKey": c.PadStdoutKey, "padStderrKey": c.PadStderrKey,
-		"sleepMs": c.SleepMs, "childSleepMs": c.ChildSleepMs, "childPidFile": sb.pidFile, "childDetached": c.ChildDetached}
+		"sleepMs": c.SleepMs, "childSleepMs": c.ChildSleepMs, "childPidFile": sb.pidFile, "childDetached": c.ChildDetached, "lingerMs": c.LingerMs}
 	script := map[string]any{c.Cmd: b}
 	if c.Cmd != "get-plugin-metadata" {
 		// should the host ever ask for the metadata before another command, it gets an honest answer
@@ -953,7 +955,7 @@ func judgeOutcome(c *Case, r *result) (string, string) {
 	et := errType(r.err)
 	overOut := strings.HasPrefix(c.Out, "overcap")
 	overErr := strings.HasPrefix(c.Err, "overcap")
-	killedByHost := c.Timing == "slow" || c.Timing == "cancel" || c.Timing == "descendant-slowparent"
+	killedByHost := c.Timing == "slow" || c.Timing == "cancel" || c.Timing == "descendant-slowparent" || c.Timing == "lingers"
 	switch {
 	case killedByHost:
 		// the process never wrote a reply and was killed at the deadline / cancellation
@@ -1383,7 +1385,7 @@ func TestC17_Cap(t *testing.T) {
 
 // timingCases enumerates the timing behaviours; details are generated.
 func timingCases(n int, seed uint64) []*Case {
-	kinds := []string{"descendant", "slow", "cancel", "descendant-slowparent", "nodeadline", "descendant-cancel", "descendant-failing"}
+	kinds := []string{"descendant", "slow", "cancel", "descendant-slowparent", "nodeadline", "descendant-cancel", "descendant-failing", "lingers"}
 	var out []*Case
 	for i := 0; i < n; i++ {
 		kind := kinds[i%len(kinds)]
@@ -1406,6 +1408,8 @@ func timingCases(n int, seed uint64) []*Case {
 			c.Ctx, c.DeadlineMs, c.SleepMs, c.ChildSleepMs = "cancel", 0, 0, longSleepMs
 		case "descendant-slowparent": // plugin and descendant both outlive the deadline
 			c.Ctx, c.CancelMs, c.SleepMs, c.ChildSleepMs = "deadline", 0, longSleepMs, longSleepMs
+		case "lingers": // the complete valid reply is out at once, the process outlives the deadline and is killed: no successful exit
+			c.Ctx, c.CancelMs, c.SleepMs, c.LingerMs = "deadline", 0, 0, longSleepMs
 		case "slow":
 			c.Ctx, c.CancelMs, c.SleepMs = "deadline", 0, longSleepMs
 		case "cancel":
@@ -1431,7 +1435,7 @@ func TestC17_Timing(t *testing.T) {
 		}
 		cases = []*Case{&rc}
 	} else {
-		n := 7 // one case of every timing kind (cancellation without deadline + descendant included)
+		n := 8 // one case of every timing kind (cancellation without deadline + descendant included)
 		if stats.Tier() == "thorough" {
 			n = 60
 		}
